@@ -127,7 +127,7 @@ class Check:
             "groups": self.groups, "samples": self.samples, "violations": self.violations, "known_hits": self.known_hits,
             "inconclusive": self.inconclusive, "functions": sorted(self.functions), "stubs": sorted(self.stubs),
             "cases": sorted(self.cases), "evaluations": self.evaluations, "harness_errors": self.harness_errors,
-            "nonrepro": self.nonrepro, "lines": self.lines, "stats": dict(symreal.STATS), "info": jsonable(self.info),
+            "nonrepro": self.nonrepro, "lines": self.lines, "stats": dict(symreal.STATS), "info": jsonable(self.info), "xcheck": dict(symreal.XCHECK),
         }
 
     def merge(self, d: dict) -> None:
@@ -155,6 +155,11 @@ class Check:
         self.nonrepro += d["nonrepro"]
         for k, v in d["stats"].items():
             symreal.STATS[k] = symreal.STATS.get(k, 0) + v
+        for k, v in d.get("xcheck", {}).items():
+            if k == "disagree":
+                symreal.XCHECK["disagree"] += v
+            elif k != "every":
+                symreal.XCHECK[k] += v
         for k, v in d["info"].items():
             if isinstance(v, dict) and isinstance(self.info.get(k), dict) and all(isinstance(x, int) for x in v.values()):
                 for kk, vv in v.items():
@@ -181,6 +186,9 @@ class Check:
         from sr import symreal
 
         wall = time.time() - self.t0
+        xc = dict(symreal.XCHECK)
+        if xc.get("disagree"):
+            self.harness_error(f"second solver (z3 4.8.12) disagrees with z3 5.x on {len(xc['disagree'])} sampled obligation(s)")
         ob = sum(sum(g.values()) for g in self.groups.values())
         discharged = sum(g.get("proved", 0) + g.get("ground", 0) + g.get("confirmed", 0) for g in self.groups.values())
         unknown = sum(g.get("unknown", 0) for g in self.groups.values())
@@ -201,6 +209,7 @@ class Check:
             "stubs": sorted(self.stubs),
             "solver_queries": symreal.STATS["queries"] + int(self.info.get("extra_queries", 0)),
             "solver_time_s": round(symreal.STATS["solver_s"] + float(self.info.get("extra_solver_s", 0.0)), 3),
+            "second_solver_cross_check": {k: (v if k != "disagree" else v[:3]) for k, v in xc.items()},
             "known_findings_hit": self.known_hits,
             "nonreproducing_counterexamples": self.nonrepro[:20],
             "harness_errors": self.harness_errors[:20],
